@@ -259,6 +259,13 @@ class MfrCheck(object):
         return dict(h, ops=list(ops))
 
     def gen(self, r, ctx):
+        if getattr(self, 'many', False):
+            # thousands of one-line members (a reader over a directory of small files), reads that span hundreds of them
+            text = r.random() < 0.5
+            n = r.choice([1100, 1500, 2500, 4000])
+            ops = [['read', r.choice([7, 50, 5000])], ['read', r.choice([20000, 50000, 10 ** 6])], ['read'], ['seek0'],
+                   ['read', r.choice([10 ** 6, 30000])], ['read']]
+            return {'kind': 'mfr', 'text': text, 'parts': [['rep', 'm%d\n' % (i % 10), 3] for i in range(n)], 'members': ['mem'] * n, 'ops': ops}
         if getattr(self, 'big', False):
             # members of a megabyte and more, reads asking for more than that
             text = r.random() < 0.5
@@ -390,6 +397,9 @@ def run(ctx):
     explore(ctx, SpoolCheck(False), n, 'sbytes')
     explore(ctx, SpoolCheck(True), n, 'sstring')
     explore(ctx, MfrCheck(), n * 2, 'mfr')
+    manym = MfrCheck()
+    manym.many = True
+    explore(ctx, manym, {'quick': 1, 'thorough': 12}[ctx.tier], 'mfr-many')
     bigm = MfrCheck()
     bigm.big = True
     explore(ctx, bigm, {'quick': 3, 'thorough': 60}[ctx.tier], 'mfr-big')
